@@ -1,0 +1,14 @@
+//go:build verif
+
+package nsqd
+
+// VerifCrashPoint, when set by the verification harness, is called on the
+// goroutine that just completed a filesystem mutation of a DiskQueue (or
+// handed a message to the consumer), with a label naming that point.
+var VerifCrashPoint func(d *DiskQueue, point string)
+
+func (d *DiskQueue) verifCrashPoint(point string) {
+	if VerifCrashPoint != nil {
+		VerifCrashPoint(d, point)
+	}
+}
